@@ -11,6 +11,11 @@ instance DML with options; all ordered pairs of DML makers inside a BatchQuery. 
 is requested is unique, so a placeholder bound to another clause's value is visible.  The
 statement text given to the fake session is parsed by the independent parser
 (`vt.spec.minicql.parse`) and compared clause by clause with the request.
+Render histories with a shared value object: one Min/MaxTimeUUID / Token function object or one ready
+WhereClause is given to the last filter() call of two query sets of different shapes (so that it sits at
+different WHERE positions / placeholder offsets); the two query sets themselves are then rendered by every
+history of 3 operations (select, count, update, delete; A first) and, bound to one BatchQuery, by every
+history of 2..3 DML operations followed by the batch; every render is judged like any other statement.
 """
 import datetime
 import itertools
@@ -25,7 +30,12 @@ META = {
             '24-letter sub-alphabet (those with 7 of the terminals), the others finished by each of 21 terminals; every update/delete terminal of a chain of up to 3 operations '
             'is executed unbatched, inside a BatchQuery before a companion instance update, and inside a BatchQuery after it (an update that also nulls columns puts an UPDATE and a DELETE '
             'built from the same filter/condition objects into the batch); plus instance and query-set DML makers (incl. updates that write one column and null others under conditions '
-            'given in either order) under every option combination alone and every ordered pair of them in one BatchQuery. '
+            'given in either order) under every option combination alone and every ordered pair of them in one BatchQuery; '
+            'plus render histories: one value object (MaxTimeUUID, MinTimeUUID, Token, or a WhereClause made by a column expression) shared by the '
+            'last filter() call of two query sets, every ordered pair of 7 query-set shapes (shared clause at WHERE position 0..3, placeholder '
+            'offset 0..3), every history of 3 operations from {select, count, update, delete} x {A, B} starting on A run on the query sets '
+            'themselves (renders A, B, A and the like; select/count answered from the cache of the query set are counted, not judged), and every history of 2..3 operations from '
+            '{update, delete, update that also nulls a column} on the two query sets bound to one BatchQuery, judged on the BATCH text. '
             'For each statement handed to the session: the %(n)s markers in the text and the keys of the parameter dict are in '
             'bijection; the WHERE, IF, SET, DELETE-selection and USING parts parsed from the text, with each marker replaced by its '
             'bound value, equal the requested filters, conditions, assignments and options as multisets (all requested values are '
@@ -594,6 +604,203 @@ def run_chains(args):
     return part
 
 
+# ------------------------------------------------------------------------------ shared value objects, render histories
+# One value object (a filtering function Min/MaxTimeUUID or Token, or a ready WhereClause from a column expression) is handed to
+# the last filter() call of TWO query sets, where it lands at different WHERE positions; the two query sets themselves (no clones)
+# are then rendered by a history of operations (A, B, A ...): every render must number and bind on its own.
+SHARED_KINDS = ('maxtimeuuid', 'mintimeuuid', 'token', 'clause')
+# (filters chained before the last filter() call, filters of the last call before the shared one, ... after the shared one)
+SHARED_SHAPES = [((), (), ()),
+                 ((), ('p1',), ()),
+                 ((), (), ('a',)),
+                 ((), ('p1', 'p2'), ()),
+                 (('p1', 'p2'), (), ('a',)),
+                 (('p1',), ('p2', 'c1in'), ()),
+                 ((), ('p1',), ('p2', 'a'))]
+SHARED_OPS = ('select', 'count', 'update', 'delete')
+SHARED_BATCH_OPS = ('update', 'delete', 'update nulls')
+SHARED_LEN = 3
+
+
+def shared_value(kind, fr):
+    """-> (positional args, keyword args of filter(), the requested relation)"""
+    from cassandra.cqlengine.functions import Token, MinTimeUUID, MaxTimeUUID
+    Q = world()['Q']
+    if kind == 'maxtimeuuid':
+        d = fr.dt()
+        return (), {'c2__lt': MaxTimeUUID(d)}, ('c2', '<', ('maxtimeuuid', ms(d)))
+    if kind == 'mintimeuuid':
+        d = fr.dt()
+        return (), {'c2__gt': MinTimeUUID(d)}, ('c2', '>', ('mintimeuuid', ms(d)))
+    if kind == 'token':
+        v1, v2 = fr.i(), fr.t()
+        return (), {'pk__token__gt': Token(v1, v2)}, ((('token', ('p1', 'p2'))), '>', ('token', (v1, v2)))
+    if kind == 'clause':
+        v = fr.i()
+        return (Q.c1 > v,), {}, ('c1', '>', v)
+    raise HarnessError('unknown shared value kind %r' % kind)
+
+
+def shared_filler(name, fr):
+    if name == 'p1':
+        v = fr.i()
+        return {'p1': v}, ('p1', '=', v)
+    if name == 'p2':
+        v = fr.t()
+        return {'p2': v}, ('p2', '=', v)
+    if name == 'a':
+        v = fr.i()
+        return {'a': v}, ('a', '=', v)
+    if name == 'c1in':
+        v = [fr.i(), fr.i()]
+        return {'c1__in': v}, ('c1', 'IN', tuple(v))
+    raise HarnessError('unknown filler %r' % name)
+
+
+def shared_queryset(shape, sv, fr, batch):
+    """Build one query set whose LAST filter() call receives the shared value object -> (query set, requested where list)."""
+    Q = world()['Q']
+    pre, before, after = shape
+    args, kwargs, rel = sv
+    q = Q.objects.allow_filtering()
+    if batch is not None:
+        q = q.batch(batch)
+    where = []
+    for n in pre:
+        kw, r = shared_filler(n, fr)
+        where.append(r)
+        q = q.filter(**kw)
+    last = {}
+    for n in before:
+        kw, r = shared_filler(n, fr)
+        where.append(r)
+        last.update(kw)
+    where.append(rel)
+    last.update(kwargs)
+    for n in after:
+        kw, r = shared_filler(n, fr)
+        where.append(r)
+        last.update(kw)
+    return q.filter(*args, **last), where
+
+
+def shared_op(q, where, op, fr, done):
+    """Run one rendering operation on the query set itself -> expected statements (None = answered from the query set's cache:
+    the fake session returns no rows, so a select has always read all rows)."""
+    if op == 'select':
+        list(q)
+        return None if 'select' in done else [dict(kind='SELECT', where=where)]
+    if op == 'count':
+        q.count()
+        # a query set that has read all its rows answers count() from them
+        return None if ('count' in done or 'select' in done) else [dict(kind='SELECT', where=where)]
+    if op == 'update':
+        v = fr.i()
+        q.update(a=v)
+        return [dict(kind='UPDATE', set=[('a', 'set', v)], where=where, iff=[], ttl=None, timestamp=None)]
+    if op == 'update nulls':
+        v = fr.t()
+        q.update(b=v, s=None)
+        return [dict(kind='UPDATE', set=[('b', 'set', v)], where=where, iff=[], ttl=None, timestamp=None),
+                dict(kind='DELETE', delete=[('s', None)], where=where, iff_subset=[])]
+    if op == 'delete':
+        q.delete()
+        return [dict(kind='DELETE', delete=[], where=where, iff=[], timestamp=None)]
+    raise HarnessError('unknown operation %r' % op)
+
+
+def run_shared_history(part, kind, ia, ib, history, batched):
+    """history: [(query set 0/1, operation)].  Unbatched: each operation is judged when it runs; batched: both query sets are bound
+    to one BatchQuery, the operations only register statements, and the single BATCH is judged at the end."""
+    from cassandra.cqlengine import CQLEngineException
+    from cassandra.cqlengine.operators import QueryOperatorException
+    from cassandra.cqlengine.query import BatchQuery
+    s = world()['session']
+    fr = Fresh()
+    case = {'shared': kind, 'shapes': [ia, ib], 'history': [list(h) for h in history], 'batched': bool(batched)}
+    batch = BatchQuery() if batched else None
+    s.take()
+    try:
+        sv = shared_value(kind, fr)
+        qs = [shared_queryset(SHARED_SHAPES[ia], sv, fr, batch), shared_queryset(SHARED_SHAPES[ib], sv, fr, batch)]
+    except (CQLEngineException, QueryOperatorException):
+        part.count('refused_by_cqlengine')
+        return
+    done = [set(), set()]
+    seen = []
+    expected_all = []
+    for step, (qi, op) in enumerate(history):
+        q, where = qs[qi]
+        # a re-render: this query set was rendered before and the other one since
+        again = qi in seen and (1 - qi) in seen[seen.index(qi):]
+        label = 'shared-%s/%s%s%s' % (kind, op, '/batched' if batched else '', '/rendered-again' if again else '')
+        try:
+            exp = shared_op(q, where, op, fr, done[qi])
+        except (CQLEngineException, QueryOperatorException) as e:
+            part.count('refused_by_cqlengine')
+            part.outcome(('refused', 'shared', op, type(e).__name__))
+            s.take()
+            continue
+        except HarnessError:
+            raise
+        except Exception as e:
+            part.violation('C37/raises/%s/%s' % (label, type(e).__name__), 'step %d of %r raised %r' % (step, case, e), dict(case, step=step))
+            return
+        done[qi].add(op)
+        seen.append(qi)
+        if batched:
+            if s.take():
+                raise HarnessError('a batched operation executed a statement before the batch ran: %r' % (case,))
+            expected_all.extend(exp)
+            continue
+        calls = s.take()
+        if exp is None:
+            if calls:
+                raise HarnessError('a cached %s executed a statement: %r' % (op, case))
+            part.count('shared_served_from_cache')
+            continue
+        part.count('shared_renders')
+        if again:
+            part.count('shared_renders_again')
+            part.count('distinct_nontrivial')
+        judge(part, label, dict(case, step=step), calls, exp)
+    if batched and expected_all:
+        batch.execute()
+        calls = s.take()
+        if len(calls) != 1:
+            raise HarnessError('batch executed %d statements' % len(calls))
+        part.count('shared_batches')
+        part.count('distinct_nontrivial')
+        judge(part, 'shared-%s/batch' % kind, case, calls, expected_all)
+    if len(history) == SHARED_LEN:
+        part.sample({'shared': kind, 'shapes': [SHARED_SHAPES[ia], SHARED_SHAPES[ib]], 'history': [list(h) for h in history],
+                     'batched': bool(batched)}, limit=1)
+
+
+def shared_histories(batched):
+    ops = SHARED_BATCH_OPS if batched else SHARED_OPS
+    letters = [(qi, op) for qi in (0, 1) for op in ops]
+    # the first operation is on query set 0: every ordered pair of shapes is enumerated, so the mirrored histories are covered
+    first = [l for l in letters if l[0] == 0]
+    lengths = (2, 3) if batched else (SHARED_LEN,)
+    for n in lengths:
+        for f in first:
+            for rest in itertools.product(letters, repeat=n - 1):
+                yield (f,) + rest
+
+
+def run_shared(args):
+    kind, ia = args
+    world()
+    part = Part()
+    for ib in range(len(SHARED_SHAPES)):
+        for batched in (False, True):
+            for h in shared_histories(batched):
+                part.count('shared_histories')
+                run_shared_history(part, kind, ia, ib, h, batched)
+    return part
+
+
 # ------------------------------------------------------------------------------ instance DML and batches
 def makers():
     """DML makers usable alone or in a batch: fn(fresh, batch) -> expected statements."""
@@ -846,6 +1053,7 @@ def run(ctx):
     jobs.append(('dml', ('single', list(range(len(F))))))
     for i in range(len(F)):
         jobs.append(('dml', ('batch', [i])))
+    jobs += [('shared', (k, ia)) for k in SHARED_KINDS for ia in ctx.rotate(list(range(len(SHARED_SHAPES))))]
     for part in ctx.pmap(_job, jobs):
         ctx.merge(part)
     ctx.count('alphabet', len(A))
@@ -854,19 +1062,27 @@ def run(ctx):
                        'alphabet (without %s) finished by the terminals %s, the others each finished by %d terminals; each update/delete terminal of a '
                        'chain of length <= %d additionally inside a BatchQuery before and after the companion maker %r (counter chains_in_batch); %d DML maker x option '
                        'cases alone and all %d ordered pairs in one BatchQuery; an evaluation = one statement text handed to the session; '
-                       'non-trivial = an unbatched chain with at least two bound filter/condition values, every batched chain, every DML case and every batch'
-                       % (len(A), full_depth, depth, sorted(REDUNDANT), sorted(LONG_TERMINALS), len(T), BATCH_MAX_LEN, COMPANION, len(F), len(F) * len(F)))
+                       'non-trivial = an unbatched chain with at least two bound filter/condition values, every batched chain, every DML case and every batch; '
+                       'shared value objects %r x %d x %d ordered shape pairs %r x histories of %d operations %r (unbatched, first on A) and of 2..3 '
+                       'operations %r (both query sets in one BatchQuery): counters shared_histories, shared_renders, shared_renders_again '
+                       '(the query set was rendered before and the other one since; these and the batches count as non-trivial), shared_batches'
+                       % (len(A), full_depth, depth, sorted(REDUNDANT), sorted(LONG_TERMINALS), len(T), BATCH_MAX_LEN, COMPANION, len(F), len(F) * len(F),
+                          SHARED_KINDS, len(SHARED_SHAPES), len(SHARED_SHAPES), SHARED_SHAPES, SHARED_LEN, SHARED_OPS, SHARED_BATCH_OPS))
     ctx.cov['exhaustive'] = True
     ctx.assume('an empty set/list/map operand of add/remove/append/prepend/update asks for nothing to be added or removed; '
                'cqlengine may drop the clause or the whole statement')
     ctx.assume('map updates may be rendered per key ("m"[k] = v) or as a map addition, map key removal as m = m - {k} or per key; both forms are accepted')
     ctx.assume('conditions repeated on the DELETE that cqlengine issues for nulled columns must be among the requested ones (which of them is not fixed by the statement)')
     ctx.assume('USING TIMESTAMP is requested with integer microsecond values only (datetime/timedelta timestamps depend on the local clock and zone)')
+    ctx.assume('a value object or WhereClause handed to filter() may be handed to filter() of another query set as well (nothing in cqlengine forbids it); '
+               'query sets are rendered one at a time (no threads)')
     ctx.assume('the select list, ORDER BY and LIMIT are outside the property statement and not judged')
 
 
 def _job(job):
     kind, args = job
+    if kind == 'shared':
+        return run_shared(args)
     return run_chains(args) if kind == 'chains' else run_dml(args)
 
 
@@ -874,7 +1090,9 @@ def replay(ctx, data):
     w = world()
     s = w['session']
     part = Part()
-    if 'chain' in data:
+    if 'shared' in data:
+        run_shared_history(part, data['shared'], data['shapes'][0], data['shapes'][1], [tuple(h) for h in data['history']], data['batched'])
+    elif 'chain' in data:
         A, T = alphabet(), terminals()
         fr, req = Fresh(), Req()
         q = w['Q'].objects
